@@ -388,9 +388,14 @@ class DefaultOperatorResolver(OperatorResolver):
                     power_term.factors[0].token or Token(),
                     "The right-hand argument of `**` must be a positive integer.",
                 )
+            # Products of terms are idempotent, so powers beyond the number of
+            # terms generate nothing new (in content or order); capping the
+            # exponent keeps e.g. `(a + b) ** 1000` from enumerating 2**1000
+            # products.
+            exponent = min(int(power_term.factors[0].expr), max(len(arg), 1))
             return OrderedSet(
                 functools.reduce(lambda x, y: x * y, term)
-                for term in itertools.product(*[arg] * int(power_term.factors[0].expr))
+                for term in itertools.product(*[arg] * exponent)
             )
 
         def multistage_formula(
